@@ -363,11 +363,20 @@ Definition rename_in (k : rk) (old new : string) (p : list string) : list string
   | _ => p
   end.
 
+Definition name_module (k : rk) : string :=
+  match k with
+  | KS1 => "segment_name_gfa1" | KP => "path_name_gfa1" | KS2 => "identifier_gfa2"
+  | KE | KGp | KO | KU => "optional_identifier_gfa2"
+  | _ => "generic"
+  end.
+
 Definition rename (s : gfa) (old new : string) : res gfa :=
   match find_named s old with
   | None => Err (G ENotFound)
   | Some x =>
       if negb (py_fullmatch re_oriented_line___validate_line new) && Nat.leb 3 (g_vlevel s) then Err (G EFormat) else
+      (* at level >= 1 the identifier is read back with the safe decoder of the name field: checked before anything changes *)
+      if Nat.leb 1 (g_vlevel s) && negb (accepts_module (table_oracle [] []) (name_module (g_rk x)) new) then Err (G EFormat) else
       match find_named s new with
       | Some y => if Nat.eqb (g_id y) (g_id x) then Ok s else Err (G ENotUnique)
       | None =>
